@@ -413,6 +413,8 @@ func (c *otApplyContext) initIters() {
 
 func (c *otApplyContext) setLookupMask(mask GlyphMask) {
 	c.lookupMask = mask
+	c.lastBase = -1
+	c.lastBaseUntil = 0
 	c.initIters()
 }
 
